@@ -62,7 +62,7 @@ def status():
             ax = ', '.join(cov.get('axioms_used', []) or [])
         if pid in claimed:
             c = claimed[pid]
-            partial = 'partial' if 'artial' in c['level_claimed']['text'] else 'full statement'
+            partial = 'partial' if 'partial' in c['level_claimed']['text'].lower() else 'full statement'
             rows.append(f"| {pid} | yes | {ob} | {esc(ax)} | {fx} / {op} | proof ({partial}; see MANIFEST level text) |")
         else:
             rows.append(f"| {pid} | not yet | {ob} | {esc(ax)} | {fx} / {op} | {esc(na.get(pid, ''))[:160]} |")
